@@ -783,6 +783,23 @@ func (l *Lin) axioms(s *system, t Term, at ssa.Instruction) {
 				at2, off := l.Expr(a)
 				s.add(fact{at2, t, -off, "max"})
 			}
+		case t.K == TLen && callee != nil && l.Summary != nil && l.Summary.FrameEndSteps[callee] && (l.Summary.FrameEnd == l.Fn || l.Summary.FrameEndSteps[l.Fn]):
+			// a private step of End that hands back the frame's bytes
+			all, n := true, 0
+			for _, b := range callee.Blocks {
+				ret, ok := b.Instrs[len(b.Instrs)-1].(*ssa.Return)
+				if !ok || b == callee.Recover || len(ret.Results) != 1 {
+					continue
+				}
+				n++
+				inner, isCall := ret.Results[0].(*ssa.Call)
+				if !isCall || !MethodIs(StaticCallee(inner), "bytes", "Buffer", "Bytes") {
+					all = false
+				}
+			}
+			if all && n > 0 {
+				s.add(fact{Zero, t, -5, "INV-frame: a step of End returns the open frame's bytes (5-byte header)"})
+			}
 		case t.K == TLen && callee != nil && l.P != nil && l.P.InScope(callee) && len(callee.Blocks) > 0 && callee.Signature.Results().Len() == 1:
 			// a helper of the scope whose every result has exactly the length of one of its int parameters
 			// (nextWindow(window, size) -> size), proved inside the helper
